@@ -90,8 +90,13 @@ fn text_of_first_token(node: &SyntaxNode) -> TokenText<'_> {
 // }
 
 impl ast::AssignmentStmt {
+    /// The left-hand side, if it is a plain identifier. (An identifier that is only the
+    /// right-hand side, as in `a[0] = b`, is not the assigned name.)
     pub fn identifier(&self) -> Option<ast::Identifier> {
-        support::child(&self.syntax)
+        self.syntax()
+            .children()
+            .next()
+            .and_then(ast::Identifier::cast)
     }
 }
 
